@@ -16,6 +16,7 @@ sorted duplicate-free lists on both sides.
   verif_exp     level 1     arg (l SEQ (l ITEMSPEC…))       ->  eval: SEQ; expand: the items
   verif_exp2    level 2     same as verif_exp
   theorem                   arg (s name)                    ->  the named theorem (hyps must be empty)
+  variable                  arg (i k)                       ->  ⊢ _VAR v_k, coded 200+k (well-typed)
 -/
 namespace Holpy.C02.Toy
 open Holpy.C02
@@ -97,6 +98,12 @@ def prim (rule : String) (a : Arg) (ps : List Seq) : Except RuleErr Seq :=
     | .none, [_, _] => .error .invalidDerivation
     | _, _ => .error .typeError
 
+/-- `assume` declares a term argument (the harness turns `(i n)`, n ≥ 0, into a term; anything
+else stays a non-term), `implies_elim` declares none. -/
+def primSig (rule : String) (a : Arg) : Bool :=
+  if rule = "assume" then (argNat? a).isSome
+  else match a with | .none => true | _ => false
+
 def eval (rule : String) (a : Arg) (ps : List Seq) : Except RuleErr Seq :=
   if rule = "verif_ax" then
     match argSeq? a with
@@ -137,7 +144,9 @@ def expand (_rule : String) (pre : List Int) (a : Arg) (ps : List (List Int × S
     | none => .error (.other 1)
   | _ => .error (.other 1)
 
-def typeOk (s : Seq) : Bool := s.concl < 100 && s.hyps.all (· < 100)
+def codeOk (c : Nat) : Bool := c < 100 || c ≥ 200
+
+def typeOk (s : Seq) : Bool := codeOk s.concl && s.hyps.all codeOk
 
 def rules (thms : List (String × Seq)) : Rules where
   kind := kind
@@ -148,7 +157,11 @@ def rules (thms : List (String × Seq)) : Rules where
       | some s => if s.hyps.isEmpty then .ok s else .error .invalidDerivation
       | none => .error .theory
     | _ => .error .theory
-  var := fun _ => .error (.other 3)
+  var := fun a =>
+    match argNat? a with
+    | some k => .ok ⟨[], 200 + k⟩
+    | none => .error (.other 1)
+  primSig := primSig
   prim := prim
   eval := eval
   expand := expand
